@@ -86,6 +86,10 @@ func ruleGetOrCreate(c *Ctx) {
 				if getEv != nil && addEv == nil {
 					unlockedBetween = true
 				}
+			case e.Kind == "invoke" && e.Method != nil && strings.HasSuffix(e.Method.FullName(), "store.Store).Get"):
+				if locked {
+					report("getorcreate-atomic", "the persistent store is read while the shard lock is held: a slow or hung store stalls every key of the shard, memory hits included, on "+where)
+				}
 			case isLRUCall(e, "Get"):
 				getEv = e
 				shard = e.Args[0]
